@@ -19,6 +19,33 @@ ASSUMPTIONS = ["kiddo SquaredEuclidean queries take and return squared distances
 KD = 'common::kd_tree'
 
 
+def order_vote_rule(cx):
+    """shared with C03: the orientation vote must go once around the WHOLE hull (wrap-around pair included), else the answer depends on
+    where the hull's index list starts, i.e. on the frame"""
+    # ---------------------------------------------------------------- sibling vote
+    votes = {}
+    for fn in ('geom2::hull::point_order_direction', 'geom2::curve2::Curve2::from_points_ccw'):
+        b = cx.fn(fn)
+        if not b:
+            continue
+        dag = b.dag()
+        cars = []
+        for bi in b.live:
+            t = b.blocks[bi]['term']
+            if bi in b.reachable() and t['k'] == 'switch':
+                c = simplify(dag.operand(t['d'], bi, len(b.blocks[bi]['stmts'])))
+                if c[0] == 'lt' and c[1] == ('const', 0):
+                    lp = [x for x in subterms(c[2]) if x[0] == 'loop']
+                    if lp:
+                        cars.append(simplify(dag.carried(lp[0][1], lp[0][2])))
+        ok = len(cars) == 1 and match('(add _ (call i32::signum (sub (index $h (rem (add 1 $i) (len $h))) (index $h $i))))', cars[0]) is not None
+        e = match('(add _ (call i32::signum (sub (index $h (rem (add 1 $i) (len $h))) (index $h $i))))', cars[0]) if cars else None
+        ok = ok and e is not None and match('(call *convex_hull_2d (param points))', e['h']) is not None
+        votes[fn] = ok
+    cx.ob('EXPR', 'order-vote:siblings', votes == {'geom2::hull::point_order_direction': True, 'geom2::curve2::Curve2::from_points_ccw': True},
+          'both order detectors sum signum(hull[(i+1)%n] - hull[i]) over the convex hull of the input and decide on `sum > 0` (counter-clockwise / keep order)', found=str(votes))
+
+
 def run(cx):
     Q = '(call T::into (field coords (param point)))'
     b = cx.fn(f'{KD}::KdTree::within')
@@ -126,28 +153,7 @@ def run(cx):
         cx.ob('EXPR', 'sample_poisson', ok, 'Poisson sampling thins sample_dense(radius/2) with the requested radius over ALL its indices and maps the kept indices back into that same dense set', where=b.file, found=r)
         for cl in cx.facts.closures_of(b.name):
             cx.expect('EXPR', 'sample_poisson:lookup', cx.retval(cl), '(index (field cap:starting (param 1)) (param i))', 'kept index i -> starting[i]', where=cl.file)
-    # ---------------------------------------------------------------- sibling vote
-    votes = {}
-    for fn in ('geom2::hull::point_order_direction', 'geom2::curve2::Curve2::from_points_ccw'):
-        b = cx.fn(fn)
-        if not b:
-            continue
-        dag = b.dag()
-        cars = []
-        for bi in b.live:
-            t = b.blocks[bi]['term']
-            if bi in b.reachable() and t['k'] == 'switch':
-                c = simplify(dag.operand(t['d'], bi, len(b.blocks[bi]['stmts'])))
-                if c[0] == 'lt' and c[1] == ('const', 0):
-                    lp = [x for x in subterms(c[2]) if x[0] == 'loop']
-                    if lp:
-                        cars.append(simplify(dag.carried(lp[0][1], lp[0][2])))
-        ok = len(cars) == 1 and match('(add _ (call i32::signum (sub (index $h (rem (add 1 $i) (len $h))) (index $h $i))))', cars[0]) is not None
-        e = match('(add _ (call i32::signum (sub (index $h (rem (add 1 $i) (len $h))) (index $h $i))))', cars[0]) if cars else None
-        ok = ok and e is not None and match('(call *convex_hull_2d (param points))', e['h']) is not None
-        votes[fn] = ok
-    cx.ob('EXPR', 'order-vote:siblings', votes == {'geom2::hull::point_order_direction': True, 'geom2::curve2::Curve2::from_points_ccw': True},
-          'both order detectors sum signum(hull[(i+1)%n] - hull[i]) over the convex hull of the input and decide on `sum > 0` (counter-clockwise / keep order)', found=str(votes))
+    order_vote_rule(cx)
 
     # ---------------------------------------------------------------- hull diameter: exhaustive pair scan
     b = cx.fn('geom2::hull::farthest_pair_indices')
